@@ -102,3 +102,191 @@ fn c17_frame_header_new() {
     }
     kani::cover!(FrameHeader::new(bs, ca.clone(), bps, rate, FrameOffset::Frame(num)).is_ok());
 }
+
+// ================================================================================================
+// C02 / C08 / C15: header code tables, complete over their finite code spaces
+// ================================================================================================
+use crate::bitsink::verif::SpecSink;
+
+fn written_value(s: &SpecSink) -> u32 {
+    if s.id.len == 0 {
+        0
+    } else {
+        (s.id.w[0] >> (64 - s.id.len)) as u32
+    }
+}
+
+/// For EVERY block size 1..=65535: the 4-bit code is never the reserved 0, the number of extra bits
+/// matches the code, and an RFC 9639 decoder reading (code, extra) recovers exactly the block size.
+//@ unit props=C02,C08,C15 tier=quick kind=complete timeout=300 funcs="BlockSizeSpec::from_size; BlockSizeSpec::tag; BlockSizeSpec::count_extra_bits; BlockSizeSpec::write_extra_bits; BlockSizeSpec::block_size"
+#[kani::proof]
+#[kani::unwind(10)]
+fn c02_block_size_code_all() {
+    let bs: u16 = kani::any();
+    kani::assume(bs >= 1);
+    let spec = BlockSizeSpec::from_size(bs);
+    let tag = spec.tag();
+    assert!(1 <= tag && tag <= 15);
+    let mut s = SpecSink::new();
+    assert!(spec.write_extra_bits(&mut s).is_ok());
+    assert!(s.id.len == spec.count_extra_bits());
+    assert!(s.id.len == spec_blocksize_extra_bits(tag));
+    assert!(spec_blocksize(tag, written_value(&s)) == Some(bs as u32));
+    assert!(spec.block_size() == Some(bs as usize));
+    kani::cover!(tag == 1);
+    kani::cover!(tag == 5);
+    kani::cover!(tag == 6 && bs == 255);
+    kani::cover!(tag == 7);
+    kani::cover!(tag == 15);
+}
+
+/// For EVERY u32 sample rate: the code is never the forbidden 0b1111; it is either 0 ("see
+/// STREAMINFO") or an RFC 9639 decoder reading (code, extra) recovers exactly the rate.
+//@ unit props=C02,C08,C15 tier=quick kind=complete timeout=300 funcs="SampleRateSpec::from_freq; SampleRateSpec::tag; SampleRateSpec::count_extra_bits; SampleRateSpec::write_extra_bits"
+#[kani::proof]
+#[kani::unwind(10)]
+fn c02_sample_rate_code_all() {
+    let f: u32 = kani::any();
+    let spec = SampleRateSpec::from_freq(f).unwrap_or(SampleRateSpec::Unspecified);
+    let tag = spec.tag();
+    assert!(tag <= 14);
+    let mut s = SpecSink::new();
+    assert!(spec.write_extra_bits(&mut s).is_ok());
+    assert!(s.id.len == spec.count_extra_bits());
+    assert!(s.id.len == spec_samplerate_extra_bits(tag));
+    if tag != 0 {
+        assert!(spec_samplerate(tag, written_value(&s)) == Some(f));
+    }
+    if 1 <= f && f <= 96_000 && f % 10 == 0 {
+        assert!(tag != 0); // representable rates are coded in the frame header
+    }
+    kani::cover!(tag == 0 && f <= 96_000);
+    kani::cover!(tag == 9);
+    kani::cover!(tag == 12);
+    kani::cover!(tag == 13);
+    kani::cover!(tag == 14);
+}
+
+/// Sample-size codes per the RFC table; widths without a code map to 0 ("see STREAMINFO"); the
+/// reserved code 3 is never produced.
+//@ unit props=C02,C15 tier=quick kind=complete timeout=120 funcs="SampleSizeSpec::from_bits; SampleSizeSpec::into_tag; SampleSizeSpec::from_tag; SampleSizeSpec::into_bits"
+#[kani::proof]
+#[kani::unwind(4)]
+fn c02_sample_size_code_all() {
+    let b: u8 = kani::any();
+    let spec = SampleSizeSpec::from_bits(b).unwrap_or(SampleSizeSpec::Unspecified);
+    let tag = spec.into_tag();
+    assert!(tag <= 7 && tag != 3);
+    if tag != 0 {
+        assert!(spec_samplesize(tag) == Some(b as u32));
+    }
+    if b == 8 || b == 12 || b == 16 || b == 20 || b == 24 {
+        assert!(tag != 0);
+    }
+    // parser side: from_tag inverts into_tag
+    assert!(SampleSizeSpec::from_tag(tag) == Some(spec));
+    let t: u8 = kani::any();
+    match SampleSizeSpec::from_tag(t) {
+        Some(s2) => assert!(t <= 7 && s2.into_tag() == t),
+        None => assert!(t > 7),
+    }
+}
+
+/// Channel-assignment codes (RFC 9639 9.1.3): 0..=7 independent (n-1), 8 left/side, 9 side/right,
+/// 10 mid/side; `from_tag` inverts; which channel carries the extra bit.
+//@ unit props=C02,C15,C01 tier=quick kind=complete timeout=120 funcs="ChannelAssignment::from_tag; ChannelAssignment::bits_per_sample_offset; ChannelAssignment::channels; ChannelAssignment::select_channels"
+#[kani::proof]
+#[kani::unwind(4)]
+fn c02_channel_assignment_codes() {
+    let t: u8 = kani::any();
+    match ChannelAssignment::from_tag(t) {
+        Some(ChannelAssignment::Independent(n)) => assert!(t <= 7 && n == t + 1),
+        Some(ChannelAssignment::LeftSide) => assert!(t == 8),
+        Some(ChannelAssignment::RightSide) => assert!(t == 9),
+        Some(ChannelAssignment::MidSide) => assert!(t == 10),
+        None => assert!(t > 10),
+    }
+    // the side channel (one extra bit) is channel 1 for left/side and mid/side, channel 0 for side/right
+    assert!(ChannelAssignment::LeftSide.bits_per_sample_offset(0) == 0);
+    assert!(ChannelAssignment::LeftSide.bits_per_sample_offset(1) == 1);
+    assert!(ChannelAssignment::RightSide.bits_per_sample_offset(0) == 1);
+    assert!(ChannelAssignment::RightSide.bits_per_sample_offset(1) == 0);
+    assert!(ChannelAssignment::MidSide.bits_per_sample_offset(0) == 0);
+    assert!(ChannelAssignment::MidSide.bits_per_sample_offset(1) == 1);
+    let ch: usize = kani::any();
+    let n: u8 = kani::any();
+    assert!(ChannelAssignment::Independent(n).bits_per_sample_offset(ch) == 0);
+    assert!(ChannelAssignment::Independent(n).channels() == n as usize);
+    assert!(ChannelAssignment::MidSide.channels() == 2);
+}
+
+// ================================================================================================
+// C04: one step of the STREAMINFO bounds (update_frame_info / add_frame)
+// ================================================================================================
+
+/// `update_frame_info(frame)`: min/max block size and min/max frame size are folded with the
+/// frame's block size and its byte length (count_bits / 8); total_samples advances by the block
+/// size; nothing else changes.  This is the `add_frame` contract the Verus driver unit consumes.
+//@ unit props=C04,C03 tier=quick kind=complete timeout=600 funcs="StreamInfo::update_frame_info; Frame::block_size"
+#[kani::proof]
+#[kani::unwind(10)]
+#[kani::stub(std::fmt::format, stub_format)]
+fn c04_update_frame_info() {
+    let mut info = StreamInfo::new(44100, 1, 16).unwrap();
+    let minb: u16 = kani::any();
+    let maxb: u16 = kani::any();
+    let minf: u32 = kani::any();
+    let maxf: u32 = kani::any();
+    let tot: u64 = kani::any();
+    kani::assume(tot < (1u64 << 40));
+    info.min_block_size = minb;
+    info.max_block_size = maxb;
+    info.min_frame_size = minf;
+    info.max_frame_size = maxf;
+    info.total_samples = tot;
+    let bs: u16 = kani::any();
+    kani::assume(bs >= 1);
+    let mut frame = Frame::new_empty(
+        BlockSizeSpec::from_size(bs),
+        ChannelAssignment::Independent(1),
+        SampleSizeSpec::B16,
+        SampleRateSpec::R44_1kHz,
+    );
+    let num: u32 = kani::any();
+    frame.header_mut().set_frame_offset(FrameOffset::Frame(num));
+    assert!(frame.block_size() == bs as usize);
+    // the frame's byte length as the component itself reports it (C08 proves it is what is written)
+    let nbytes = (frame.count_bits() / 8) as u32;
+    info.update_frame_info(&frame);
+    assert!(info.min_block_size() == std::cmp::min(minb, bs) as usize);
+    assert!(info.max_block_size() == std::cmp::max(maxb, bs) as usize);
+    assert!(info.min_frame_size() == std::cmp::min(minf, nbytes) as usize);
+    assert!(info.max_frame_size() == std::cmp::max(maxf, nbytes) as usize);
+    assert!(info.total_samples() as u64 == tot + bs as u64);
+    assert!(info.sample_rate() == 44100 && info.channels() == 1 && info.bits_per_sample() == 16);
+    kani::cover!(bs < minb);
+    kani::cover!(bs > maxb);
+    kani::cover!(nbytes == 8);
+    kani::cover!(nbytes > 10);
+}
+
+/// `set_block_sizes(min, max)`: Ok exactly for min <= max <= 32767 (both <= 65535 before the
+/// range check), and then both fields are stored.
+//@ unit props=C04,C17 tier=quick kind=complete timeout=300 funcs="StreamInfo::set_block_sizes"
+#[kani::proof]
+#[kani::unwind(6)]
+#[kani::stub(std::fmt::format, stub_format)]
+fn c04_set_block_sizes() {
+    let mut info = StreamInfo::new(44100, 2, 16).unwrap();
+    let a: usize = kani::any();
+    let b: usize = kani::any();
+    let r = info.set_block_sizes(a, b);
+    if a <= b && b <= 32767 {
+        assert!(r.is_ok());
+        assert!(info.min_block_size() == a && info.max_block_size() == b);
+    } else {
+        assert!(r.is_err());
+    }
+    kani::cover!(r.is_ok());
+    kani::cover!(a == 65536 + 44);
+}
